@@ -397,7 +397,164 @@ def fam_listfind(v, n):
     return ops
 
 
+def _attr_data(rng):
+    keys = ["comment", "frames", "status", "user", "sid", "a b"]
+    out = []
+    for k in rng.sample(keys[:5], rng.randint(1, 3)):
+        v = rng.choice(['"ok"', "12", "null", "true", "[1, 2]", '{"a": 1}', '"é"', "1.5", '""'])
+        out.append([k, v])
+    return out
+
+
+def materialise(v, wid, leaves, config, junk=False):
+    """operations creating the entities of a universe in world `wid` (leaves first: parents are
+    created on the way, as WriteToPaths does)"""
+    rng = v.rng
+    ops = [{"op": "world", "w": wid, "do": "new"}]
+    for label, fields in leaves:
+        s = "/".join(val for _, val in fields)
+        op = {"op": "world", "w": wid, "do": "create", "sid": s, "config": config}
+        if rng.random() < 0.4:
+            op["data"] = _attr_data(rng)
+        ops.append(op)
+    return ops
+
+
+def tree_universe(v, nleaf=None):
+    """leaves of path-backed leaf types, free values without glob metacharacters"""
+    from gen import NAMES, re_is_free
+    rng = v.rng
+    cfg = sorted(v.paths.keys())[0]
+    backed = [l for l, _ in v.paths[cfg]["templates"] if l in v.tdict]
+    leaf_labels = [l for l in backed if v.tdict[l] and v.tdict[l][-1][0] == v.leaf_keys.get(l.split(v.sep)[0])]
+    names = [n for n in NAMES if not any(ch in n for ch in "[]?*")]
+    leaves = []
+    base = None
+    for _ in range(nleaf or rng.randint(2, 6)):
+        if base is not None and rng.random() < 0.75:
+            label, fields = base
+            fields = list(fields)
+            for _ in range(rng.randint(1, 2)):
+                i = rng.randrange(2, len(fields))
+                k = fields[i][0]
+                r = dict(v.tdict[label])[k]
+                fields[i] = (k, rng.choice(names) if re_is_free(r) else v.value((k, r), concrete_only=True))
+        else:
+            label = rng.choice(leaf_labels)
+            fields = [(k, (rng.choice(names) if re_is_free(r) else v.value((k, r), concrete_only=True))) for k, r in v.tdict[label]]
+            base = (label, fields)
+        if (label, fields) not in leaves:
+            leaves.append((label, fields))
+    return leaves
+
+
+def fam_tree(v, n, model):
+    """C09-C12, C16, C18: a generated universe materialised as a tree; Finders, Getters and Sid data
+    calls compared in lock-step"""
+    rng = v.rng
+    sg = SearchGen(v)
+    configs = sorted(v.paths.keys())
+    default = v.d["conf"]["default_path"] or configs[0]
+    ops = []
+    for u in range(max(1, n // 25)):
+        wid = "t%d" % u
+        leaves = tree_universe(v)
+        # the default configuration is what FindInAll / DataSid calls read
+        cfg = default if rng.random() < 0.7 else rng.choice(configs)
+        ops += materialise(v, wid, leaves, cfg)
+        if rng.random() < 0.5:   # junk
+            ask = [{"op": "sid_call", "from": {"s": "/".join(val for _, val in f)}, "m": "path", "config": cfg} for _, f in leaves]
+            for a in model(ask):
+                p = a.get("ok")
+                if p and rng.random() < 0.6:
+                    mp = mutate_path(v, p)
+                    if mp.startswith("/R/") and "\n" not in mp and "\x00" not in mp and "//" not in mp and not mp.endswith("/") and "/." not in mp:
+                        ops.append({"op": "world", "w": wid, "do": "plant", "path": mp, "kind": rng.choice(["file", "dir"])})
+        ops.append({"op": "world", "w": wid, "do": "dump"})
+        for _ in range(20):
+            base = rng.choice(leaves)
+            if rng.random() < 0.35:
+                label, fields = base
+                i = rng.randint(1, len(fields))
+                pl = [l for l, ks in v.templates if [k for k, _ in ks] == [k for k, _ in fields[:i]]]
+                base = (pl[0], fields[:i]) if pl else base
+            s = sg.search(base=base, allow_gt=rng.random() < 0.3, malformed=0.02)
+            x = rng.random()
+            if x < 0.12:
+                op = {"op": "world", "w": wid, "do": "getter_paths", "s": s, "config": cfg, "enc": rng.choice(["str", "uri", "none"])}
+                if rng.random() < 0.5:
+                    op["attributes"] = rng.sample(["comment", "frames", "sid", "nope"], rng.randint(1, 3))
+                ops.append(op)
+            elif x < 0.45:
+                ops.append({"op": "world", "w": wid, "do": "find_paths", "s": s, "config": cfg})
+            elif x < 0.8:
+                ops.append({"op": "world", "w": wid, "do": "find_all", "s": s})
+            else:
+                ops.append({"op": "world", "w": wid, "do": "find_paths", "s": s, "config": rng.choice(configs)})
+        for _ in range(8):
+            label, fields = rng.choice(leaves)
+            i = rng.randint(1, len(fields))
+            s = "/".join(val for _, val in fields[:i])
+            if rng.random() < 0.2:
+                s = v.typed_sid(search=0)[1]
+            do = rng.choice(["sid_exists", "children", "siblings", "get_last", "get_next", "get_new", "get_data"])
+            op = {"op": "world", "w": wid, "do": do, "sid": s}
+            if do == "get_last":
+                op["key"] = rng.choice([None, "version", fields[i - 1][0], "task"])
+            if do == "get_data":
+                op["config"] = cfg
+                op["enc"] = rng.choice(["str", "uri", "none"])
+                if rng.random() < 0.5:
+                    op["attributes"] = rng.sample(["comment", "frames", "sid", "nope"], rng.randint(1, 3))
+            ops.append(op)
+    return ops
+
+
+def fam_history(v, n, model):
+    """C12 / C15 / C18: sequences of create / update / read operations on one tree"""
+    rng = v.rng
+    configs = sorted(v.paths.keys())
+    default = v.d["conf"]["default_path"] or configs[0]
+    ops = []
+    for u in range(max(1, n // 30)):
+        wid = "h%d" % u
+        leaves = tree_universe(v, nleaf=rng.randint(2, 4))
+        pool = []
+        for label, fields in leaves:
+            for i in range(1, len(fields) + 1):
+                pool.append("/".join(val for _, val in fields[:i]))
+        pool = sorted(set(pool)) + ["junk", "hamlet/a/char/x/model/v001/w"]   # untyped, path-less (state level)
+        ops.append({"op": "world", "w": wid, "do": "new"})
+        for _ in range(rng.randint(10, 30)):
+            s = rng.choice(pool)
+            x = rng.random()
+            if x < 0.3:
+                op = {"op": "world", "w": wid, "do": "create", "sid": s, "config": default}
+                y = rng.random()
+                if y < 0.3:
+                    op["data"] = _attr_data(rng)
+                elif y < 0.4:
+                    op["data"] = []
+                ops.append(op)
+            elif x < 0.5:
+                ops.append({"op": "world", "w": wid, "do": "update", "sid": s, "config": default, "data": _attr_data(rng) if rng.random() < 0.9 else []})
+            elif x < 0.65:
+                ops.append({"op": "world", "w": wid, "do": "get_data", "sid": s, "config": default, "enc": rng.choice(["str", "uri", "none"])})
+            elif x < 0.75:
+                ops.append({"op": "world", "w": wid, "do": "sid_exists", "sid": s})
+            elif x < 0.85:
+                ops.append({"op": "world", "w": wid, "do": rng.choice(["children", "siblings", "get_new", "get_last"]), "sid": s})
+            else:
+                ops.append({"op": "world", "w": wid, "do": "find_all", "s": s.rsplit("/", 1)[0] + "/*" if "/" in s else s})
+            if rng.random() < 0.1:
+                ops.append({"op": "world", "w": wid, "do": "dump"})
+        ops.append({"op": "world", "w": wid, "do": "dump"})
+    return ops
+
+
 FAMILIES = {
+    "tree": fam_tree,
+    "history": fam_history,
     "unfold": fam_unfold,
     "listfind": fam_listfind,
     "paths": fam_paths,
